@@ -471,11 +471,54 @@ func checkGuardedRecursion(c *Ctx, r *Rec, info *types.Info, n *types.Named, ms 
 	// bracketing helpers: functions that call a function parameter with the counter stepped up
 	// (atNextDepth(collator, func() R) R): what runs inside the literal handed to them runs one level down
 	bracketers := map[*types.Func]int{}
+	bracketPtr := map[*types.Func]int{} // the counter is handed in by address: index of that parameter
 	for _, hd := range c.allFuncDecls(c.roleOf(n.Obj().Pkg())) {
 		if hd.Body == nil || c.infoFor(hd) != info {
 			continue
 		}
 		hps := paramObjs(info, hd)
+		// nested(&v.depth, func() R): *depth++ ; result = f() ; *depth--  at the top level of the helper
+		{
+			level := map[types.Object]int{}
+			for _, st := range hd.Body.List {
+				if ids, ok := st.(*ast.IncDecStmt); ok {
+					if star, ok := ast.Unparen(ids.X).(*ast.StarExpr); ok {
+						if o := identObj(info, star.X); o != nil {
+							if ids.Tok == token.INC {
+								level[o]++
+							} else {
+								level[o]--
+							}
+						}
+					}
+					continue
+				}
+				inspectNoLit(st, func(x ast.Node) bool {
+					call, ok := x.(*ast.CallExpr)
+					if !ok {
+						return true
+					}
+					id, ok := ast.Unparen(call.Fun).(*ast.Ident)
+					if !ok {
+						return true
+					}
+					for pi, p := range hps {
+						if info.Uses[id] != types.Object(p) {
+							continue
+						}
+						for qi, q := range hps {
+							if level[q] >= 1 {
+								if fn := c.funcOf(hd); fn != nil {
+									bracketers[fn.Origin()] = pi
+									bracketPtr[fn.Origin()] = qi
+								}
+							}
+						}
+					}
+					return true
+				})
+			}
+		}
 		hg := newFG(info, hd.Body)
 		hdeltas := depthDeltasWith(hg, info, depthF, steppers)
 		inspectNoLit(hd.Body, func(x ast.Node) bool {
@@ -640,6 +683,15 @@ func checkGuardedRecursion(c *Ctx, r *Rec, info *types.Info, n *types.Named, ms 
 						if pi, ok := bracketers[cf.Origin()]; ok && pi < len(ac.Args) {
 							if lit, ok := ast.Unparen(ac.Args[pi]).(*ast.FuncLit); ok && lit == enclosingLit(fd.Body, node) {
 								bracketed = true
+								// a counter handed in by address must be this type's depth counter
+								if qi, byPtr := bracketPtr[cf.Origin()]; byPtr {
+									bracketed = false
+									if qi < len(ac.Args) {
+										if u, ok := ast.Unparen(ac.Args[qi]).(*ast.UnaryExpr); ok && u.Op == token.AND && selectorField(info, u.X) == depthF {
+											bracketed = true
+										}
+									}
+								}
 							}
 						}
 					}
